@@ -461,6 +461,14 @@ impl Datamodel for RFsmExpressionDatamodel {
     }
 
     fn set_arc(&mut self, name: &str, data: DataArc, allow_undefined: bool) {
+        {
+            // System variables can't be modified (e.g. by 'idlocation' or as <foreach> item).
+            let mut global = self.global_data.lock().unwrap();
+            if global.data.get(name).is_some_and(|d| d.is_readonly()) {
+                global.enqueue_internal(Event::error_execution(&None, &None));
+                return;
+            }
+        }
         if allow_undefined {
             self.global_data
                 .lock()
